@@ -86,12 +86,18 @@ impl Monitor for C01 {
         });
         let extra = if len > 20_000 { 2 } else { 5 };
         for _ in 0..extra {
-            let ctor = match rng.below(8) {
-                0 => Ctor::FromRead,
-                1 => Ctor::FromBoxed,
-                2 => Ctor::FromBufReader(1 + rng.usize(100)),
-                _ => Ctor::Chunk(*rng.pick(&CHUNKS)),
+            let ctor = if rng.chance(1, 2) {
+                drive::random_ctor(rng)
+            } else {
+                Ctor::Chunk(*rng.pick(&CHUNKS))
             };
+            rep.inc(match ctor {
+                Ctor::Chunk(_) => "ctor:new",
+                Ctor::FromRead => "ctor:from_read",
+                Ctor::FromBoxed => "ctor:from_boxed_dyn_read",
+                Ctor::FromBufReader(_) => "ctor:from_buf_reader",
+                Ctor::AfterPreamble(..) => "ctor:new_on_advanced_reader",
+            });
             runs.push(Run {
                 policy: random_policy(rng, len),
                 ctor,
